@@ -539,10 +539,11 @@ def warm_structure():
     except Exception as e:  # noqa: BLE001
         return ['cannot parse WarmStart.warm_start_increment: %r' % (e,)]
     src = {ast.unparse(n) for n in ast.walk(fd) if isinstance(n, (ast.Assign, ast.Return, ast.Lambda))}
+    src |= {t.replace('(dx, cgWarmStartSolveSuccess)', 'dx, cgWarmStartSolveSuccess') for t in src}
     want = ['dp = objective.p[index] - pNew[index]', 'b = objective.jacobian_p_vec(x, dp)', 'b = objective.jacobian_p2_vec(x, dp)',
             'op = lambda v: objective.hessian_vec(x, v)', 'Lop = LinearOperator((sz, sz), matvec=op)',
             'LopPrecond = LinearOperator((sz, sz), matvec=objective.apply_precond)',
-            '(dx, cgWarmStartSolveSuccess) = cg(Lop, b, M=LopPrecond, callback=callback)', 'return dx']
+            'dx, cgWarmStartSolveSuccess = cg(Lop, b, M=LopPrecond, callback=callback)', 'return dx']
     for w in want:
         if w not in src:
             out.append('statement `%s` not found in warm_start_increment' % w)
